@@ -13,6 +13,9 @@ use crate::render;
 use crate::report::*;
 use serde_json::json;
 
+/// Usually a small size, one time in ten a large one (see DESIGN.md: sizes and boundaries).
+fn sz(s: &mut dyn Src, small: u32, large: u32) -> u32 { if chance(s, 1, 10) { s.draw(large) } else { s.draw(small) } }
+
 #[derive(Clone, Copy, PartialEq, Debug)]
 pub enum BAspect { Arith, FuncSides, Compare, Lists, Append, Misc }
 
@@ -118,7 +121,7 @@ impl BuiltinProp {
     // -------------------------------------------------------------- C12
     fn arith(&self, s: &mut dyn Src, rep: &mut Report) -> CaseResult {
         let op = pick(s, &["add", "subtract", "multiply", "divide"]);
-        let n = 1 + s.draw(4) as usize;
+        let n = 1 + sz(s, 4, 9) as usize;
         let vals: Vec<Term> = (0..n).map(|_| if chance(s, 1, 3) { small_num(s) } else { gen_num(s) }).collect();
         // 0 literal/API  1 variables/API  2 text function form  3 text infix form (binary)
         let pres = weighted(s, &[3, 3, 2, 2]);
@@ -182,7 +185,7 @@ impl BuiltinProp {
         let mut sc = Scn::new();
         let gen_fun = |s: &mut dyn Src, sc: &mut Scn| -> Term {
             if chance(s, 1, 3) {
-                let n = 1 + s.draw(4) as usize;
+                let n = 1 + sz(s, 4, 12) as usize;
                 let mut args = vec![];
                 for _ in 0..n {
                     let w = match s.draw(6) { 0 => Term::atom(","), 1 => Term::atom("."), 2 => Term::Int(s.draw(10) as i64), 3 => Term::List(vec![Term::atom("x"), Term::atom("?"), Term::atom("y")], None), _ => Term::atom(pick(s, &["the", "cat", "sat", "Hello"])) };
@@ -321,7 +324,7 @@ impl BuiltinProp {
                 _ => Term::Cmp("f".into(), vec![elem(s, 2)]),
             }
         }
-        let n = s.draw(6) as usize;
+        let n = sz(s, 6, 41) as usize;
         let mut seq: Vec<Term> = (0..n).map(|_| elem(s, 0)).collect();
         // bias: list-valued / empty-list element in last position
         if n > 0 && chance(s, 1, 3) { let k = s.draw(3) as usize; seq[n - 1] = Term::List((0..k).map(|_| elem(s, 1)).collect(), None); }
@@ -437,7 +440,7 @@ impl BuiltinProp {
     // -------------------------------------------------------------- C16 / C17 helpers
     fn list_value(s: &mut dyn Src, sc: &mut Scn, depth: u32, flags: &mut (bool, bool, bool)) -> Term {
         // flags: (bound tail used, list-valued last element, element through variable)
-        let n = s.draw(4) as usize;
+        let n = sz(s, 4, 33) as usize;
         let mut es = vec![];
         for i in 0..n {
             let e = match weighted(s, &[5, 2, 2, 1]) {
@@ -461,7 +464,7 @@ impl BuiltinProp {
     fn append(&self, s: &mut dyn Src, rep: &mut Report) -> CaseResult {
         let mut sc = Scn::new();
         let mut flags = (false, false, false);
-        let k = 1 + s.draw(4) as usize;
+        let k = 1 + sz(s, 4, 9) as usize;
         let mut args = vec![];
         for _ in 0..k {
             let v = match weighted(s, &[4, 1, 1, 1]) {
@@ -521,7 +524,7 @@ impl BuiltinProp {
             }
             3 => {
                 let name = pick(s, &["noun", "noun_phrase", "np", "f", "verb"]);
-                let ar = s.draw(5) as usize;
+                let ar = sz(s, 5, 14) as usize;
                 let t = Term::Cmp(name.to_string(), (0..ar).map(|_| Term::atom(pick(s, &["x", "y"]))).collect());
                 let (tt, _) = sc.present(s, t);
                 let fa = match s.draw(8) {
@@ -543,7 +546,7 @@ impl BuiltinProp {
                 sc.goals.push(Goal::BuiltIn("functor".into(), args));
             }
             _ => {
-                let n = 1 + s.draw(5) as usize;
+                let n = 1 + sz(s, 5, 20) as usize;
                 let mut args = vec![];
                 let mut pos = 0;
                 for _ in 0..n {
@@ -595,7 +598,7 @@ fn to_rt(t: &Term) -> crate::rt::RT {
 
 impl Property for BuiltinProp {
     fn id(&self) -> &'static str { self.id }
-    fn max_len(&self) -> usize { 96 }
+    fn max_len(&self) -> usize { 160 }
     fn budget(&self) -> (u64, u64) { (12_000, 80_000) }
 
     fn check(&self, src: &mut dyn Src, rep: &mut Report) -> CaseResult {
